@@ -185,6 +185,13 @@ def replay(tid, beh, seed, threshold):
                 raised = True
                 break
             P.append(res)
+            if res.size != call["rw"]:
+                # the handle does not have the width the call dictates (TLC will report it under C12):
+                # later calls would be applied to ill-sized operands, stop here
+                e["live"] = [{"h": len(P), "tree": ser.tree(res)}]
+                ev.append(e)
+                raised = True
+                break
             if call["act"] == "pickle":
                 o = P[call["i"] - 1]
                 same = ser.tree(o) == ser.tree(res) and o.size == res.size
